@@ -393,6 +393,16 @@ def render_stmt(s, rng):
     raise AssertionError(k)
 
 
+COMMENT_BITS = ["c", "", " push1 0x00", " remember the counter; gas", ";", "; stop", ";pc;pc", " a: ; jumpdest", " %push(1); pc",
+                " \"quoted\" ; %include(\"x\")", " # nested # ; gas", " 0x", " ; push2 0xffff ;", "\t;\tjumpdest"]
+
+
+def comment(rng):
+    """a comment up to (not including) the end of the line: any characters, among them `;`, `%`, `:`, quotes and
+    whole statements -- none of which may contribute a byte or end the comment early"""
+    return "#" + rng.choice(COMMENT_BITS)
+
+
 def render(stmts, rng=None):
     """source text; with rng: random legal layout (blank lines, comments, `;` separators, blanks)"""
     out = []
@@ -401,7 +411,7 @@ def render(stmts, rng=None):
         if rng:
             r = rng.random()
             if r < 0.15: line = rng.choice([" ", "\t", "  "]) + line
-            if r > 0.8 and "\n" not in line: line += rng.choice([" ", "  # c", " #", "\t# push1 0x00"])
+            if r > 0.8 and "\n" not in line: line += rng.choice([" ", "  " + comment(rng), " " + comment(rng), "\t" + comment(rng)])
         out.append(line)
     if not rng:
         return "\n".join(out) + "\n"
@@ -416,7 +426,7 @@ def render(stmts, rng=None):
         else:
             text += "\n" * rng.choice([1, 1, 1, 2, 3]) if i + 1 < len(out) or rng.random() < 0.7 else ""
             if rng.random() < 0.08:
-                text += rng.choice(["# comment\n", "   \n", "#\n"])
+                text += rng.choice([comment(rng) + "\n", "   \n", "#\n", "  " + comment(rng) + "\n"])
     if rng.random() < 0.2:
-        text = rng.choice(["\n", "\n\n", "# head\n"]) + text
+        text = rng.choice(["\n", "\n\n", "# head\n", comment(rng) + "\n"]) + text
     return text
